@@ -62,14 +62,35 @@ func (s *byteStreamServer) Read(in *bytestream.ReadRequest, out bytestream.ByteS
 		}
 
 	case remoteexecution.Compressor_ZSTD:
-		b := s.blobAccess.Get(ctx, digest)
+		// The read offset refers to the uncompressed data.
+		// Compress the part of the blob starting at that offset.
+		r := s.blobAccess.Get(ctx, digest).ToChunkReader(in.ReadOffset, s.readChunkSize)
+		defer r.Close()
+
+		// Read the first chunk prior to acquiring an encoder,
+		// so that no data is sent if the blob cannot be read
+		// or the offset lies outside of the blob.
+		chunk, readErr := r.Read()
+		if readErr != nil && readErr != io.EOF {
+			return readErr
+		}
+
 		encoder, err := s.zstdPool.NewEncoder(ctx, &readStreamWriter{out: out})
 		if err != nil {
-			b.Discard()
 			return status.Errorf(codes.ResourceExhausted, "Failed to acquire ZSTD encoder: %v", err)
 		}
-		defer encoder.Close()
-		return b.IntoWriter(encoder)
+		for readErr == nil {
+			if _, writeErr := encoder.Write(chunk); writeErr != nil {
+				encoder.Close()
+				return writeErr
+			}
+			chunk, readErr = r.Read()
+		}
+		if readErr != io.EOF {
+			encoder.Close()
+			return readErr
+		}
+		return encoder.Close()
 	default:
 		return status.Errorf(codes.Unimplemented, "This service does not support downloading compression type: %s", compressor)
 	}
